@@ -228,3 +228,110 @@ PROPS["C09"] = {
     "design_ref": "DESIGN.md section 5 (C09)",
     "explanation": "handle-registered, spawn-failed-handle-set-unchanged, removes-the-handle-on-every-outcome, task-context-parent-is-the-factory-context, handler clauses",
 }
+
+
+COMP_TRUSTED = CTX_TRUSTED + [
+    "A-TG2/A-TG3 anyio task group (start_soon spawns exactly one task per call; the group's exit waits for all of them; first failure cancels the rest)",
+    "A-WITH a context entered by `async with` is left only by the entering task", "A-XS AsyncExitStack",
+    "A-TREE the ComponentContext objects form a tree and only the activation _start_component(cc) writes cc's component state",
+    "A-NEW calling a class that passed isclass/issubclass(cls, Component) yields a Component instance (no metaclass tricks); "
+    "its _child_components is None or the dict written by add_component",
+    "A-PLUG a PluginContainer's cache/entry-point dictionaries are private to it", "A-REF resolve_reference (import + getattr walk)",
+    "A-BADARG merge_config raises before writing when given a non-dict",
+    "A-WAIT Signal.wait_event subscribes before its first suspension and returns the first accepted event dispatched afterwards "
+    "(bounded evidence only: C10 harness)",
+    "lemma:frame (proved every run, listed under functions): writes confined to private containers preserve every class invariant and guarantee",
+]
+COMP_ASSUME = CTX_ASSUME + [
+    "opaque strings: str.split and f-strings are uninterpreted deterministic functions of their arguments (split: >= 1 item, >= 2 when the separator occurs)",
+    "whole-tree statements (order across more than one level, exactly-once over the tree, 'no part still running') are the composition of the "
+    "per-node contract of _start_component over the tree built by _init_component; the composition itself is checked by the bounded harness only",
+]
+
+PROPS["C05"] = {
+    "functions": ["_component.start_component", "_component._init_component", "_component._start_component",
+                  "_component.ComponentContext.__init__", "_component.ComponentContext.get_resource",
+                  "_component.ComponentContext.get_resource.<lambda@0>", "lemma:frame"],
+    "trusted": COMP_TRUSTED, "assumptions": COMP_ASSUME,
+    "undecided": ["liveness of acyclic waiting patterns (every waiter is eventually released) - bounded harness only",
+                  "everything registered belongs to the surrounding context: by delegation (ComponentContext wrappers, C06/C14 contracts) + C01/C08"],
+    "level": "other",
+    "level_text": "Partly proved, partly bounded. Proved on the real bodies, for all inputs and paths: start_component builds the whole tree "
+                  "(_init_component, once, returned) strictly before the single _start_component call on that tree's root, spawns the watchdog first iff "
+                  "a timeout is given and cancels it only after a successful start, returns the root's component; _init_component resolves, constructs "
+                  "and recurses exactly once per child of the merged configuration; _start_component (per node, inside `async with` its context): "
+                  "prepare() iff overridden and before any child is spawned, every child spawned exactly once in one atomic segment inside an inner task "
+                  "group, start() iff overridden and only after that group exited normally, state started at return. Bounded (harness, random trees "
+                  "of depth <= 3): the composition over the whole tree, waiting patterns, ownership of what components register.",
+    "level_note": "Not counted as proved: whole-tree composition and waiting liveness (bounded harness; scope in evidence).",
+    "design_ref": "DESIGN.md section 5 (C05)",
+    "technique": "contract-based deductive verification of start_component / _init_component / _start_component (pyvc + z3) + bounded model-based harness over random component trees",
+    "explanation": "tree-built-at-most-once-and-started-at-most-once-after-it-was-built, prepare-completes-before-children-are-spawned, "
+                   "every-processed-child-spawned-exactly-once, start-only-after-all-children-were-spawned-and-awaited; tree-level order by the harness",
+}
+PROPS["C07"] = {
+    "functions": ["_component.start_component", "_component._init_component", "_component._start_component", "lemma:frame"],
+    "trusted": COMP_TRUSTED, "assumptions": COMP_ASSUME,
+    "undecided": ["'no part of the tree is still running once start_component has raised' rests on A-TG2 (task group exit waits for / cancels all "
+                  "children) - bounded harness", "timeout: the watchdog body (_watch_component_tree_startup) is diagnostic code + fail_after - bounded harness"],
+    "level": "other",
+    "level_text": "Partly proved, partly bounded. Proved: the ComponentStartError created in _init_component / _start_component names the phase "
+                  "that just failed ('creating' / 'preparing' / 'starting'), this component's path and its resolved class, is raised from the original "
+                  "exception, and only for an Exception (cancellation and other BaseExceptions pass through unchanged so that the task group sees one "
+                  "failure); after a failing prepare() no child is spawned and start() is never called; after a failing child the parent's start() is "
+                  "never called (start only after the group exited normally); start_component spawns the watchdog before anything is started iff a "
+                  "timeout is given and cancels it only after success. Bounded: sibling cancellation, nothing running afterwards, timeout, teardown "
+                  "order of what was registered (C01).",
+    "level_note": "Not counted as proved: task-group level behaviour (siblings stopped, nothing runs afterwards), timeout.",
+    "design_ref": "DESIGN.md section 5 (C07)",
+    "technique": "contract-based deductive verification of the error mapping in _init_component / _start_component / start_component (pyvc + z3) + bounded harness with injected failures",
+    "explanation": "start-error-names-the-failing-phase-path-and-class, start-error-only-for-an-Exception, creating-error-names-phase-path-and-the-resolved-class, "
+                   "own-start-error-is-raised-from-the-original-exception",
+}
+PROPS["C06"] = {
+    "functions": ["_component.ComponentContext.get_resource", "_component.ComponentContext.get_resource.<lambda@0>",
+                  "_context.Context.get_resource", "_context.Context.add_resource", "_context.Context.add_resource_factory",
+                  "_event.Signal.dispatch", "_event.Signal._subscribe"],
+    "clauses": lambda q, o: q.startswith("_component.") or q.startswith("_event.") or any(
+        t in o["id"] for t in ("event", "announces", "resources:", "canary", "G-mono", "ResourceNotFound", "never-raises-on-a-hit")),
+    "trusted": COMP_TRUSTED, "assumptions": COMP_ASSUME + [
+        "the miss is atomic with the raise: Context.get_resource raises ResourceNotFound without suspending when neither table has the key (pure_when split, proved)",
+        "publication inserts into the table before dispatching the event (event:* clauses of add_resource/add_resource_factory, proved)"],
+    "undecided": ["'as soon as' (promptness) and the stream wrappers stream_events/wait_event: bounded harness",
+                  "known finding F9: a burst of >= 50 publications without a checkpoint overflows the waiter's queue"],
+    "level": "other",
+    "level_text": "Partly proved, partly bounded. Proved: ComponentContext.get_resource with optional=True performs exactly one delegated lookup "
+                  "(optional=True) and never waits; otherwise it looks up, and only after a ResourceNotFound miss - with no suspension point or foreign "
+                  "call in between - calls wait_event on the backing context's resource_added signal with a filter that accepts exactly the events "
+                  "announcing the requested name and a type tuple containing the requested type (the lambda is verified as its own function), then "
+                  "looks up again and returns that result; add_resource/add_resource_factory insert before they dispatch, dispatch makes one send attempt "
+                  "per subscriber, _subscribe removes exactly its own stream. Assumed (A-WAIT) and bounded: wait_event subscribes before its first "
+                  "suspension.",
+    "level_note": "Not counted as proved: wait_event/stream_events (bounded: C10 and component harness). KNOWN-FINDING F9.",
+    "design_ref": "DESIGN.md section 5 (C06)",
+    "technique": "contract-based deductive verification of ComponentContext.get_resource, its filter lambda, the publishing side and Signal.dispatch/_subscribe (pyvc + z3) + bounded harness",
+    "explanation": "required:no-suspension-between-the-miss-and-the-subscription, required:waits-with-the-name-and-type-filter, accepts-exactly-name-and-type-matches, "
+                   "optional:one-delegated-lookup-never-waits, returns-the-result-of-the-last-delegated-lookup",
+}
+PROPS["C14"] = {
+    "functions": ["_component._init_component", "_component.start_component", "_component.ComponentContext.add_resource",
+                  "_component.ComponentContext.add_resource_factory", "_component.ComponentContext.__init__",
+                  "_utils.PluginContainer.resolve", "_utils.merge_config", "lemma:frame"],
+    "trusted": COMP_TRUSTED, "assumptions": COMP_ASSUME + ["deep merge = C17 (merge_config contract, proved)",
+                                                           "Component.add_component stores {'type': type or alias, **config} under the alias (bounded harness)"],
+    "undecided": ["'equal configurations yield equal trees' (determinism) - bounded harness (second start from the same object)"],
+    "level": "other",
+    "level_text": "Partly proved, partly bounded. Proved: _init_component merges merge_config(component._child_components, external `components`) in that "
+                  "order (external overrides hard-coded, C17), and for every child of the merged mapping calls itself with the child path "
+                  "parent.alias, a private copy of the child's options whose type defaults to the alias and drops a '/name' suffix, and the default "
+                  "resource name taken from that child's own alias only ('default' without a '/'); it writes only its own private config argument and "
+                  "dictionaries it allocated (so, by induction from start_component's private root copy, the caller's configuration is never written); "
+                  "PluginContainer.resolve: non-string returned as is, 'module:attr' resolved as a reference only, entry point names cached / loaded "
+                  "once / LookupError; ComponentContext.add_resource/_factory remap the name 'default' to the component's default resource name exactly "
+                  "while the component state is `starting` and pass everything else through. Bounded: add_component, whole-tree equality.",
+    "level_note": "Not counted as proved: Component.add_component, tree equality. fixed: F3.",
+    "design_ref": "DESIGN.md section 5 (C14)",
+    "technique": "contract-based deductive verification of _init_component, PluginContainer.resolve and the ComponentContext add wrappers (pyvc + z3) + bounded harness",
+    "explanation": "merge:hard-coded-children-first-external-configuration-overrides, child:* clauses, writes-only-its-own-config-argument-and-dictionaries-it-allocated, "
+                   "default-name-remapped-only-while-starting, never-writes-the-callers-config",
+}
